@@ -15,6 +15,7 @@ CONSTANTS
  DevDangEnd = FALSE
  DevNoAtomResname = FALSE
  DevOrderedPairs = FALSE
+ DevGateOnce = FALSE
  DevDegree = TRUE
 INVARIANT MissingIsExpected
 CHECK_DEADLOCK FALSE
